@@ -314,6 +314,13 @@ func builtinStringSplit(call FunctionCall) Value {
 		limit = int(toUint32(limitValue))
 	}
 
+	// ES5 15.5.4.14 step 8: a separator that is not a RegExp is converted to a
+	// string before the limit is looked at (step 9), so its toString always runs.
+	separator := ""
+	if !separatorValue.isRegExp() {
+		separator = separatorValue.string()
+	}
+
 	if limit == 0 {
 		return objectValue(call.runtime.newArray(0))
 	}
@@ -379,8 +386,6 @@ func builtinStringSplit(call FunctionCall) Value {
 	RETURN:
 		return objectValue(call.runtime.newArrayOf(valueArray))
 	} else {
-		separator := separatorValue.string()
-
 		splitLimit := limit
 		excess := false
 		if limit > 0 {
